@@ -48,7 +48,9 @@ func NewTagCmd(v *viper.Viper) (*cobra.Command, error) {
 	flags := cmd.PersistentFlags()
 	flags.Bool("dry-run", true, "print, but do not perform, any actions")
 
-	viper.BindPFlag("dry-run", flags.Lookup("dry-run"))
+	if err := v.BindPFlag("dry-run", flags.Lookup("dry-run")); err != nil {
+		return nil, err
+	}
 
 	return cmd, nil
 }
